@@ -10,9 +10,10 @@
        TextDecoder, which drops a leading byte-order mark - js_bom_refuted), format letters are in the BMP;
      - access by name: the component's name is not reused by a later component, the letter not by a later position of
        the format (an object keeps one value per key - js_duplicate_names_example);
-     - a coordinate letter must not be "C" and must stand at a position d < D = max format length - 1: the JavaScript
-       stride is place * _dims + position-in-format, which differs from Python's positional reading for every format whose
-       confidence letter is not the last one (js_format_order_refuted, witness "CXY"; DESIGN section 7 F5). *)
+     - the coordinate letter at position d of a format names Python's coordinate number [coord_index format d] (the number
+       of coordinate letters before it): after fix F5 the JavaScript counter advances on coordinate letters only, so this
+       holds for every letter order (C05_js_format_cxy_example); it must index an existing coordinate
+       ([coord_index format d < D], D = max format length - 1, relevant for mixed-length formats only). *)
 From Coq Require Import ZArith NArith List String.
 Require Import ListN Result Bytes Prog Tensor Codec CodecRT
   C05_JsParser C05_Spec C05_View C05_Header C05_HeaderView C05_Body C05_Index C05_Cells C05_Main C05_V01 C05_V00
@@ -52,8 +53,9 @@ Proof. exact js_body_info_eq. Qed.
 Print Assumptions C05_js_body_info_eq.
 
 (* ---------- v0.2: every frame, person, component, point: coordinates and confidence ---------- *)
-(* frames[i].people[j][name of component n][l] : "C" is Python's confidence[i][j][offset n + l]; the letter at position d of
-   the component's format is Python's data[i][j][offset n + l][d] (row-major cells of the tensors Pose.read returns). *)
+(* frames[i].people[j][name of component n][l] : "C" is Python's confidence[i][j][offset n + l]; the coordinate letter at
+   position d of the component's format is Python's data[i][j][offset n + l][coord_index format d] (row-major cells of the
+   tensors Pose.read returns); for the usual formats ("XYC", "XYZC": no "C" before position d) coord_index format d = d. *)
 Theorem C05_js_index_eq :
   forall p bs, write_pose p = Ok bs -> wf_arrays p -> (1 <= nth 3 (w_shape p) 0)%N -> Forall wcomp_plain (w_comps p) ->
   exists py jp,
@@ -64,10 +66,14 @@ Theorem C05_js_index_eq :
       ~ In (c_name c) (map c_name (skipn (S n) (h_comps (p_header py)))) ->
       let t := point_offset (h_comps (p_header py)) n + l in
       js_cell (jp_frame jp (Z.of_nat i)) j (c_name c) l 67 = Some (VF32 (tget 0%N (py_conf (p_body py)) [i; j; t])) /\
-      forall d x, nth_error (c_format c) d = Some x -> x <> 67%N -> d < D -> ~ In x (skipn (S d) (c_format c)) ->
-        js_cell (jp_frame jp (Z.of_nat i)) j (c_name c) l x = Some (VF32 (tget 0%N (py_data (p_body py)) [i; j; t; d])).
+      forall d x, nth_error (c_format c) d = Some x -> x <> 67%N -> coord_index (c_format c) d < D -> ~ In x (skipn (S d) (c_format c)) ->
+        js_cell (jp_frame jp (Z.of_nat i)) j (c_name c) l x = Some (VF32 (tget 0%N (py_data (p_body py)) [i; j; t; coord_index (c_format c) d])).
 Proof. exact js_index_eq. Qed.
 Print Assumptions C05_js_index_eq.
+Theorem C05_coord_index_plain_formats :
+  forall fmt d, ~ In 67%N (firstn d fmt) -> d <= List.length fmt -> coord_index fmt d = d.
+Proof. exact coord_index_no_C. Qed.
+Print Assumptions C05_coord_index_plain_formats.
 (* the index arithmetic on its own: parser.ts:151-156 is the row-major position *)
 Theorem C05_js_stride_is_row_major :
   forall F P T D i j k l d : nat,
@@ -91,8 +97,8 @@ Theorem C05_js_v01_eq :
       ~ In (c_name c) (map c_name (skipn (S n) (lcomps q))) ->
       let t := point_offset (lcomps q) n + l in
       js_cell (jp_frame jp (Z.of_nat i)) j (c_name c) l 67 = Some (VF32 (tget 0%N (mkT [F; P; T] (l_conf q)) [i; j; t])) /\
-      forall d x, nth_error (c_format c) d = Some x -> x <> 67%N -> d < D -> ~ In x (skipn (S d) (c_format c)) ->
-        js_cell (jp_frame jp (Z.of_nat i)) j (c_name c) l x = Some (VF32 (tget 0%N (mkT [F; P; T; D] (l_data q)) [i; j; t; d])).
+      forall d x, nth_error (c_format c) d = Some x -> x <> 67%N -> coord_index (c_format c) d < D -> ~ In x (skipn (S d) (c_format c)) ->
+        js_cell (jp_frame jp (Z.of_nat i)) j (c_name c) l x = Some (VF32 (tget 0%N (mkT [F; P; T; D] (l_data q)) [i; j; t; coord_index (c_format c) d])).
 Proof. exact js_v01_eq. Qed.
 Print Assumptions C05_js_v01_eq.
 
@@ -123,21 +129,22 @@ Proof. exact js_dispatch_words. Qed.
 Print Assumptions C05_js_dispatch_eq.
 
 (* ---------- where the readers differ (witnesses computed on the models; each is replayed on node / CPython by the check) ---------- *)
-(* F5: format "CXY" written by Pose.write.  Python: point a = (1.0, 2.0), confidence 0.5.  JavaScript: the letter at
-   position 0 ("C") is 0.5 where Python's coordinate 0 is 1.0, and the letter "Y" (position 2 = D) is 3.0, the first
-   coordinate of the NEXT point.  Hence the restrictions x <> "C" and d < D above are necessary. *)
-Theorem C05_js_format_order_refuted :
+(* format "CXY" written by Pose.write (F5, fixed): Python: point a = (1.0, 2.0), confidence 0.5.  JavaScript: a.X = 1.0,
+   a.Y = 2.0, a.C = 0.5 - the hypotheses of C05_js_index_eq are satisfiable by a format whose "C" comes first. *)
+Theorem C05_js_format_cxy_example :
   exists p bs py jp c,
   write_pose p = Ok bs /\ wf_arrays p /\ (1 <= nth 3 (w_shape p) 0)%N /\ Forall wcomp_plain (w_comps p) /\
   run_plain full_read_prog {| pbuf := bs; poff := 0 |} = Ok (py, {| pbuf := bs; poff := lenN bs |}) /\
   parse_pose bs = Some jp /\ nth_error (h_comps (p_header py)) 0 = Some c /\
-  nth_error (c_format c) 0 = Some 67%N /\
-  tget 0%N (py_data (p_body py)) [0; 0; 0; 0] = 1065353216%N /\
+  c_format c = [67; 88; 89]%N /\ coord_index (c_format c) 1 = 0 /\ coord_index (c_format c) 2 = 1 /\
+  tget 0%N (py_data (p_body py)) [0; 0; 0; 0] = 1065353216%N /\ tget 0%N (py_data (p_body py)) [0; 0; 0; 1] = 1073741824%N /\
   js_cell (jp_frame jp 0%Z) 0 (c_name c) 0 67 = Some (VF32 1056964608) /\
-  nth_error (c_format c) 2 = Some 89%N /\
-  js_cell (jp_frame jp 0%Z) 0 (c_name c) 0 89 = Some (VF32 (tget 0%N (py_data (p_body py)) [0; 0; 1; 0])).
-Proof. exact js_format_order_refuted_w. Qed.
-Print Assumptions C05_js_format_order_refuted.
+  js_cell (jp_frame jp 0%Z) 0 (c_name c) 0 88 = Some (VF32 1065353216) /\
+  js_cell (jp_frame jp 0%Z) 0 (c_name c) 0 89 = Some (VF32 1073741824) /\
+  js_cell (jp_frame jp 0%Z) 0 (c_name c) 1 88 = Some (VF32 (tget 0%N (py_data (p_body py)) [0; 0; 1; 0])) /\
+  js_cell (jp_frame jp 0%Z) 0 (c_name c) 1 67 = Some (VF32 1048576000).
+Proof. exact js_format_cxy_example. Qed.
+Print Assumptions C05_js_format_cxy_example.
 (* a component name starting with U+FEFF: Python keeps it, the JavaScript header has the name without it *)
 Theorem C05_js_bom_refuted :
   exists p bs py jp hd hl c,
